@@ -21,12 +21,17 @@ int main()
     ompl::msg::setLogLevel(ompl::msg::LOG_NONE);
     ompl::RNG::setSeed(1);
     std::vector<std::shared_ptr<NN>> nn(4);
+    // NEWT instead of NEW: the first k-centre of every split is drawn from a tape (RNG hook) that both GNATs see from its
+    // start at every operation: u(op, k) = ((seed + 7 op + 13 k) mod 64) / 64
+    long tape_seed = -1, opno = 0; std::vector<double> tape(512);
     std::string line;
     while (std::getline(std::cin, line))
     {
         std::istringstream in(line); std::string op; if (!(in >> op)) continue;
-        if (op == "NEW")
+        if (op == "NEW" || op == "NEWT")
         {
+            tape_seed = -1; opno = 0;
+            if (op == "NEWT") { std::string t; std::istringstream ts(line); std::string w; std::vector<std::string> ws; while (ts >> w) ws.push_back(w); tape_seed = std::atol(ws.back().c_str()); }
             unsigned deg, mn, mx, leaf, cache; int reb; in >> deg >> mn >> mx >> leaf >> cache >> reb;
             nn[0] = std::make_shared<ompl::NearestNeighborsGNAT<Pt>>(deg, mn, mx, leaf, cache, reb != 0);
             nn[1] = std::make_shared<ompl::NearestNeighborsGNATNoThreadSafety<Pt>>(deg, mn, mx, leaf, cache, reb != 0);
@@ -40,6 +45,10 @@ int main()
         {
             std::istringstream a(line); std::string dummy; a >> dummy;
             if (s) out << " # ";
+#ifdef OMPL_VERIF
+            if (tape_seed >= 0 && s < 2) { for (std::size_t k = 0; k < tape.size(); ++k) tape[k] = (double)((tape_seed + 7 * opno + 13 * (long)k) % 64) / 64.0; ompl::RNG::verifSetTape(tape.data(), tape.size()); }
+            else ompl::RNG::verifSetTape(nullptr, 0);
+#endif
             try
             {
                 if (op == "A") { Pt p; a >> p.x >> p.y; nn[s]->add(p); out << "ok"; }
@@ -60,6 +69,10 @@ int main()
             }
             catch (ompl::Exception &) { out << "EXC"; }
         }
+#ifdef OMPL_VERIF
+        ompl::RNG::verifSetTape(nullptr, 0);
+#endif
+        ++opno;
         std::string o = out.str();
         for (auto &ch : o) if (ch == '\n') ch = '|';
         std::printf("%s\n", o.c_str()); std::fflush(stdout);
